@@ -149,18 +149,25 @@ class C6:
         return None
 
 
+def _same_slice(a, b):
+    while isinstance(a, tuple) and a and a[0] in ("ref", "deref"):
+        a = a[1]
+    return canon(a) == b
+
+
 def run(facts):
     res = Result("C6", "no integer reported by a safe user trait (remaining, chunks_vectored, size_hint, Cursor::position) reaches an unsafe extent "
                        "without min / a dominating guard against a trusted bound, or safe indexing")
     c6 = C6(facts)
     n_sinks = 0
     n_flows = 0
+    n_unchecked = 0
     for b in facts.fn_bodies():
         eb = ExprBuilder(b, facts, inline=True)
         cnt = {}
 
         def report(kind, bi, e, extra=""):
-            nonlocal n_flows
+            nonlocal n_flows, n_unchecked
             ts = c6.tainted_subexprs(e, b)
             if not ts:
                 return
@@ -228,6 +235,32 @@ def run(facts):
             if idxs is None:
                 continue
             loc = (bi, len(blk["stmts"]))
+            if r["path"].rsplit("::", 1)[-1] in ("get_unchecked", "get_unchecked_mut") and len(t["args"]) == 2:
+                # unchecked indexing is justified only by a dominating comparison with the real length of that very slice:
+                # what a user trait *says* about its data (has_remaining, remaining) does not bound a slice it hands out
+                n_unchecked += 1
+                sl = canon(eb.operand(t["args"][0], loc))
+                ix = canon(uncast(eb.operand(t["args"][1], loc)))
+                while isinstance(sl, tuple) and sl and sl[0] in ("ref", "deref"):
+                    sl = sl[1]
+                ln = ("call", "core::slice::<impl [T]>::len", (sl,))
+                ctx = Ctx(b, bi, facts)
+                okx = False
+                if isinstance(ix, tuple) and ix[0] == "agg":
+                    ends = [x for x in ix[2]]
+                    okx = bool(ends) and all(ctx.le(x, ln) or any(ctx.le(x, ("call", l[1], l[2])) for l in [y for r2 in ctx.rels for y in r2[1:] if is_call(y, "len") and _same_slice(y[2][0], sl)]) for x in ends)
+                else:
+                    okx = ctx.lt(ix, ln) or any(r2[0] == "lt" and r2[1] == ix and is_call(r2[2], "len") and _same_slice(r2[2][2][0], sl) for r2 in ctx.rels)
+                if not okx and ix == ("const", 0):
+                    okx = any(r2[0] == "truth" and r2[2] == 0 and is_call(r2[1], "is_empty") and _same_slice(r2[1][2][0], sl) for r2 in ctx.rels)
+                k0 = "%s|%s" % (b.id, r["path"].rsplit("::", 1)[-1])
+                c = cnt.get(k0, 0)
+                cnt[k0] = c + 1
+                key = k0 + ("#%d" % c if c else "")
+                if okx:
+                    res.ok(key, b.loc(bi), "index bounded by the real length of the indexed slice", nontrivial=True)
+                else:
+                    res.bad(key, b.loc(bi), "unchecked index %s into %s is not dominated by a comparison with that slice's own length" % (fmt_expr(ix)[:40], fmt_expr(sl)[:60]))
             for i in idxs:
                 if i < len(t["args"]):
                     n_sinks += 1
